@@ -57,7 +57,7 @@ def run_verus(path, rlimit=None, seed=None, timeout=1500, threads=None):
         cmd += ['--num-threads', str(threads)]
     t0 = time.time()
     try:
-        p = subprocess.run(cmd, stdout=subprocess.PIPE, stderr=subprocess.PIPE, timeout=timeout, cwd=VERIF, text=True)
+        p = subprocess.run(cmd, stdout=subprocess.PIPE, stderr=subprocess.PIPE, timeout=timeout, cwd=GEN, text=True)
         rc, so, se = p.returncode, p.stdout, p.stderr
     except subprocess.TimeoutExpired as e:
         rc, so, se = -9, e.stdout or '', (e.stderr or '') + '\nTIMEOUT'
